@@ -89,6 +89,8 @@ def compare(A, B, n1, findings, cfg, ver, fresh):
         if ja >= len(A.steps): break
         n += 1
         fa, fb = A.flat[ja], B.flat[j]
+        if fa == fb and A.obs[ja].get('pino') != B.obs[j].get('pino'):
+            fa = fa + ['pino', A.obs[ja].get('pino')]      # same result, but the mount point got another pseudo inode number
         if fa == fb: continue
         st = B.steps[j]
         sig = dict(kind='diverges', step=st['k'], op=st.get('op'), **ctx)
@@ -127,6 +129,20 @@ def gen_cases(sess, rng, tb, tier, findings):
     for steps, fresh in ((b0.steps, 'same'), (b1_steps, 'default')):
         A, B, n1 = variant(sess, rng, tb, cfg0, steps, len(steps), 2, fresh, [(1 << 56) | 1])
         evals += compare(A, B, n1, findings, cfg0, 2, fresh); tie_cases.append(A)
+    # deterministic, remove_pseudo_root set: the last-created pseudo directory is evicted by an umount, a refused umount of an
+    # ancestor happens, then save/restore; the probe's new mount must get the pseudo inode number it would have got anyway
+    if not os.environ.get('VFS_NO_DET'):
+        cfg1 = {'gmap': None, 'rm': 1, 'no_open': 1, 'no_opendir': 1}
+        b2 = Case(sess, cfg1, tb); g2 = HistoryGen(b2, rng, use_maps=False)
+        g2.mount(path=mk_path(rng, [('N', 1)], noise=False), map=None, ans=okmount(rng))
+        g2.mount(path=mk_path(rng, [('N', 2), ('N', 3)], noise=False), map=None, ans=okmount(rng))
+        g2.mount(path=mk_path(rng, [('N', 4)], noise=False), map=None, ans=okmount(rng))
+        g2.umount(mk_path(rng, [('N', 2)], noise=False))                   # refused: not a mount point
+        g2.umount(mk_path(rng, [('N', 4)], noise=False))                   # evicts the last-created pseudo directory
+        b2.finish()
+        for ver in (2, 1):
+            A, B, n1 = variant(sess, rng, tb, cfg1, b2.steps, len(b2.steps), ver, 'same', [(1 << 56) | 1])
+            evals += compare(A, B, n1, findings, cfg1, ver, 'same'); tie_cases.append(A)
     for pl in plans:
         base, g = base_history(sess, rng, tb, pl['cfg'], pl['n'] + (25 if pl['many'] else 0), pl['use_maps'], pl['root'], pl['many']); base.finish()
         issued = sorted(set(g.pool))[:4]
